@@ -221,6 +221,34 @@ func TestVerifC04(t *testing.T) {
 					rep.Violate("C04.404", sig, fmt.Sprintf("%s: status %d %q, want 404", u.url, r.Code, vTrim(r.Body)), map[string]any{"url": u.url})
 				}
 			}
+			// every number below the start number (in particular startNumber - k x segments per loop)
+			// x representation kind x addressing x instants from stream start to far beyond the window
+			for _, as := range []struct {
+				asset string
+				reps  []string
+			}{{"testpic_2s", []string{"V300/%d.m4s", "A48/%d.m4s", "imsc1_txt_sv/%d.m4s", "thumbs/%d.jpg"}}, {"testpic_8s", []string{"V300/%d.m4s", "A48/%d.m4s"}}} {
+				for _, snr := range []int{1, 4, 7, 10} {
+					for nr := 0; nr < snr; nr++ {
+						for _, rp := range as.reps {
+							for _, mode := range []string{"", "segtimelinenr_1/"} {
+								if mode != "" && strings.HasPrefix(rp, "thumbs") {
+									continue
+								}
+								for _, now := range []int64{0, 5000, 70000, 100000, 1_700_000_000_000} {
+									u := fmt.Sprintf("/livesim2/snr_%d/%s%s/%s?nowMS=%d", snr, mode, as.asset, fmt.Sprintf(rp, nr), now)
+									rep.Hit("C04.404")
+									rep.AddExecs(1)
+									r := vGet(srv, u)
+									if r.Code != 404 {
+										kind := strings.SplitN(rp, "/", 2)[0]
+										rep.Violate("C04.404", fmt.Sprintf("not-404:below-startNumber:%s:status-%d", kind, r.Code), fmt.Sprintf("%s: status %d %q, want 404 (number %d is below startNumber %d)", u, r.Code, vTrim(r.Body), nr, snr), map[string]any{"url": u})
+									}
+								}
+							}
+						}
+					}
+				}
+			}
 		}
 	}
 }
